@@ -37,7 +37,7 @@ def configs(tier):
     for a in ACCESSORS:
         out.append({"kind": "out", "accessor": a})
     if tier != "quick":
-        for a in ("neighbors", "neighbors_hit", "find_links", "bft"):
+        for a in ("neighbors", "neighbors_hit", "find_links"):
             out.append({"kind": "out", "accessor": a, "links3": True})
     out.append({"kind": "whitelist"})
     for i in INPUTS:
